@@ -348,14 +348,16 @@ fn check_stdout_seq(stdout: &str, tag: &str, stages: &[Vec<String>], all_steps: 
             continue;
         }
         let Some(pos) = l.rfind("=>") else { return Err(format!("block {tag}: line {i} has no arrow: {l:?}")) };
+        // cells are padded by the tool; a word may itself begin or end with spaces (a phrase
+        // whose first or last word was deleted), so both sides are compared trimmed
         let fin = l[pos + 2..].trim();
-        if !l.starts_with(first[i].as_str()) || fin != last[i] {
+        if !l.starts_with(first[i].as_str()) || fin != last[i].trim() {
             return Err(format!("block {tag}: line {i} is {l:?}, expected `{} => {}`", first[i], last[i]));
         }
         if all_steps {
             // -a: every stage in order, separated by arrows
             let cols: Vec<&str> = l.split("=>").map(|c| c.trim()).collect();
-            let want: Vec<&str> = stages.iter().map(|st| st[i].as_str()).collect();
+            let want: Vec<&str> = stages.iter().map(|st| st[i].trim()).collect();
             if cols != want {
                 return Err(format!("block {tag}: line {i} shows stages {cols:?}, expected {want:?}"));
             }
